@@ -276,16 +276,14 @@ def truthy (o : Option α) : Bool := match o with | some x => !isZero x | none =
 
 /-- `viscosity_of_water(T, molarity_nacl, pressure)` for one temperature: the Kestin salt model when a pressure
     and/or a molarity is given (`if pressure or molarity_nacl:`), else Huber et al.  A pure function of its three
-    arguments: nothing is remembered between calls.  (`molarity_nacl=None` together with a pressure is not modelled.) -/
+    arguments: nothing is remembered between calls.  `molarity_nacl=None` together with a pressure is 0 M (F23). -/
 def viscosityOfWater [RPow α] (T : α) (c p : Option α) : Option (Except Err α) :=
   if truthy p || truthy c then
-    match c with
-    | none => none
-    | some c =>
-      let p := p.getD 0.101325
-      some do
-        let m ← molarityToMolality T c p
-        if saltValid T m p then .ok (saltViscosity T m p) else .error .value
+    let c := c.getD 0.0
+    let p := p.getD 0.101325
+    some do
+      let m ← molarityToMolality T c p
+      if saltValid T m p then .ok (saltViscosity T m p) else .error .value
   else
     some (if le (-20.0) T && lt T 110.0 then .ok (viscosityWater T) else .error .value)
 
